@@ -328,7 +328,9 @@ impl ASN1Type {
     }
 
     /// Does `self`, at any depth, refer to the type `name`, directly or through the
-    /// parameterized types it references (`P {T} ::= Q {T}`, `Q {T} ::= P {T}`)?
+    /// types it references (`P {T} ::= Q {T}`, `Q {T} ::= P {T}`)? Plain types count as
+    /// well, because instantiating a template inlines the types it mentions
+    /// (`P {T} ::= SEQUENCE { b B OPTIONAL, t T }`, `B ::= SEQUENCE { p P {INTEGER} }`).
     fn refers_to<'a>(
         &'a self,
         name: &str,
@@ -341,11 +343,9 @@ impl ASN1Type {
                     return true;
                 }
                 match tlds.get(&e.identifier) {
-                    Some(ToplevelDefinition::Type(ToplevelTypeDefinition {
-                        ty,
-                        parameterization: Some(_),
-                        ..
-                    })) if !via.contains(&e.identifier.as_str()) => {
+                    Some(ToplevelDefinition::Type(ToplevelTypeDefinition { ty, .. }))
+                        if !via.contains(&e.identifier.as_str()) =>
+                    {
                         via.push(&e.identifier);
                         ty.refers_to(name, tlds, via)
                     }
